@@ -1,0 +1,35 @@
+//go:build verif
+
+// Copyright Istio Authors
+//
+// Licensed under the Apache License, Version 2.0 (the "License");
+// you may not use this file except in compliance with the License.
+// You may obtain a copy of the License at
+//
+//     http://www.apache.org/licenses/LICENSE-2.0
+//
+// Unless required by applicable law or agreed to in writing, software
+// distributed under the License is distributed on an "AS IS" BASIS,
+// WITHOUT WARRANTIES OR CONDITIONS OF ANY KIND, either express or implied.
+// See the License for the specific language governing permissions and
+// limitations under the License.
+
+package ca
+
+// Accessors for the verification harness (property C09). Add-only, no behaviour change;
+// the file is compiled only with the build tag `verif`.
+
+// VerifNodeAuthorizerConfigured reports whether New() installed a node authorizer
+// (CA_TRUSTED_NODE_ACCOUNTS non-empty).
+func (s *Server) VerifNodeAuthorizerConfigured() bool {
+	return s.nodeAuthorizer != nil
+}
+
+// VerifNodeAuthorizerSynced reports whether the pod informer and the {service account, node}
+// index of every per-cluster node authorizer have synced.
+func (s *Server) VerifNodeAuthorizerSynced() bool {
+	if s.nodeAuthorizer == nil {
+		return true
+	}
+	return s.nodeAuthorizer.component.HasSynced()
+}
